@@ -156,7 +156,8 @@ func (c *codec) uncompressedBodyLength(header *Header, body *Body) (length int, 
 	} else if length, err = encoder.EncodedLength(body.Message, header.Version); err != nil {
 		return -1, fmt.Errorf("cannot compute message length: %w", err)
 	}
-	if header.Flags.Contains(primitive.HeaderFlagTracing) {
+	if header.Flags.Contains(primitive.HeaderFlagTracing) && body.Message.IsResponse() {
+		// only responses carry a tracing id; on requests the flag merely asks for tracing
 		length += primitive.LengthOfUuid
 	}
 	if header.Flags.Contains(primitive.HeaderFlagCustomPayload) {
